@@ -32,9 +32,10 @@ type Op struct {
 		Stored []AbsRow  `json:"stored"`
 	} `json:"post"`
 	T struct {
-		Rb  bool `json:"rb"`
-		Gap bool `json:"gap"`
-		Nr  int  `json:"nr"`
+		Rb  bool  `json:"rb"`
+		Gap bool  `json:"gap"`
+		Nr  int   `json:"nr"`
+		Rel []int `json:"rel"`
 	} `json:"t"`
 }
 
@@ -44,7 +45,9 @@ func (o Op) class() string {
 	if nr > 2 {
 		nr = 2
 	}
-	return fmt.Sprintf("rb=%v gap=%v nr=%d k=%s pre=%v", o.T.Rb, o.T.Gap, nr, o.K, o.K != "none" && o.At == 0)
+	rel := append([]int{}, o.T.Rel...)
+	sort.Ints(rel)
+	return fmt.Sprintf("rb=%v gap=%v nr=%d k=%s pre=%v rel=%v", o.T.Rb, o.T.Gap, nr, o.K, o.K != "none" && o.At == 0, rel)
 }
 
 func (o Op) post() AbsState { return AbsState{Synced: o.Post.Synced, Rows: o.Post.Stored} }
@@ -58,6 +61,8 @@ type Plan struct {
 	D, MaxR, Start0                         int
 	Precond                                 string
 	FKinds                                  []string
+	NoBad                                   bool
+	MinForkNum, SyncFrom                    int // shape long chains: forks / syncs only at or above these block numbers
 	SimNum, SimLen                          int // > 0: behaviours come from TLC simulation
 	Flavors                                 []string
 	Stretch                                 int
@@ -104,8 +109,8 @@ func (p Plan) cfgText(errm, reorg string, sim bool) string {
 	}
 	fmt.Fprintf(&b, "CONSTANTS\n  MaxBlocks = %d\n  MaxNum = %d\n  MaxLeaves = %d\n  MaxEvents = %d\n  KeySeq <- cKeySeq\n",
 		p.MaxBlocks, p.MaxNum, p.MaxLeaves, p.MaxEvents)
-	fmt.Fprintf(&b, "  D = %d\n  MaxR = %d\n  Start0 = %d\n  ErrMode = %q\n  Reorg = %q\n  Precond = %q\n  FKinds = {%s}\n  Emit = TRUE\n  SimLen = %d\n",
-		p.D, p.MaxR, p.Start0, errm, reorg, p.Precond, quoteList(p.FKinds), simLen)
+	fmt.Fprintf(&b, "  D = %d\n  MaxR = %d\n  Start0 = %d\n  ErrMode = %q\n  Reorg = %q\n  Precond = %q\n  FKinds = {%s}\n  Emit = TRUE\n  SimLen = %d\n  MinForkNum = %d\n  SyncFrom = %d\n  AllowBad = %s\n",
+		p.D, p.MaxR, p.Start0, errm, reorg, p.Precond, quoteList(p.FKinds), simLen, p.MinForkNum, p.SyncFrom, strings.ToUpper(fmt.Sprint(!p.NoBad)))
 	fmt.Fprintf(&b, "SPECIFICATION Spec\nINVARIANT C15_InvCex\nINVARIANT EmitInv\nVIEW View\nCHECK_DEADLOCK FALSE\n")
 	return b.String()
 }
@@ -530,6 +535,16 @@ func plansC15(thorough bool) []Plan {
 		// exhaustive, depth 2: replayed on the MultiEventSyncer (AssumedReorgDepth = 2, range 2)
 		{Name: "multi-d2", MaxBlocks: d(5, 6), MaxNum: 4, MaxLeaves: 2, MaxEvents: 2, Keys: []string{"k1", "k2"},
 			D: 2, MaxR: 2, Start0: 1, Precond: "depth", FKinds: all, Flavors: []string{FlMulti}, Stretch: 1, MaxBeh: d(400, 6000), EnumEvery: d(4, 2)},
+		// exhaustive, depth 1: with 5 blocks a rollback stops at a block that carries an event (event at,
+		// just above, just below the rollback target)
+		{Name: "multi-d1", MaxBlocks: d(5, 6), MaxNum: 4, MaxLeaves: 2, MaxEvents: 2, Keys: []string{"k1", "k2"},
+			D: 1, MaxR: 2, Start0: 1, Precond: "depth", FKinds: all, Flavors: []string{FlMulti}, Stretch: 1, MaxBeh: d(300, 4000), EnumEvery: d(4, 2)},
+		// exhaustive on shaped long chains for the constant depth 10: linear up to block 10, forks and
+		// syncs only above, so that the rollback target (synced - 10) is block 1, 2 or 3 and events sit
+		// at, above and below it; all three syncers (MultiEventSyncer configured with depth 10)
+		{Name: "d10-edge", MaxBlocks: d(14, 15), MaxNum: d(12, 13), MaxLeaves: 2, MaxEvents: d(1, 2), Keys: []string{"k1", "k2"}, NoBad: true,
+			D: constDepth, MaxR: constRange, Start0: 1, Precond: "depth", FKinds: []string{"db"}, MinForkNum: 10, SyncFrom: 11,
+			Flavors: []string{FlRegistry, FlSequencer, FlMulti}, Stretch: 1, MaxBeh: d(150, 1500), EnumEvery: d(8, 4)},
 		// exhaustive, the constants of the two other syncers (depth 10, one range): every reorg rolls back to 0
 		{Name: "const-d10-small", MaxBlocks: d(5, 6), MaxNum: 4, MaxLeaves: 2, MaxEvents: 2, Keys: []string{"k1", "k2"},
 			D: constDepth, MaxR: constRange, Start0: 0, Precond: "depth", FKinds: all,
